@@ -177,6 +177,21 @@ type pkgFacts struct {
 // imports of the library packages (non-test files of the default build): pkg -> sorted import paths
 var libImports = map[string][]string{}
 
+// checkedPkg: one type-checked library package (kept for the call-graph / aliasing extractors).
+type checkedPkg struct {
+	name  string
+	files []*ast.File
+	info  *types.Info
+	pkg   *types.Package
+}
+
+// lastChecked / lastFset / lastVarRecs: the result of the most recent extractFacts call.
+var (
+	lastChecked []checkedPkg
+	lastFset    *token.FileSet
+	lastVarRecs map[*types.Var]*varRec
+)
+
 func extractFacts(repo string) ([]*varRec, map[string]int, []string, error) {
 	libImports = map[string][]string{}
 	fset := token.NewFileSet()
@@ -184,12 +199,7 @@ func extractFacts(repo string) ([]*varRec, map[string]int, []string, error) {
 	all := map[*types.Var]*varRec{}
 	stats := map[string]int{}
 	var skipped []string
-	type checked struct {
-		files []*ast.File
-		info  *types.Info
-		pkg   *types.Package
-	}
-	var cps []checked
+	var cps []checkedPkg
 	li.check = func(name string) (*types.Package, error) {
 		if p, ok := li.done[modPath+"/"+name]; ok {
 			return p, nil
@@ -233,6 +243,7 @@ func extractFacts(repo string) ([]*varRec, map[string]int, []string, error) {
 			Defs:       map[*ast.Ident]types.Object{},
 			Selections: map[*ast.SelectorExpr]*types.Selection{},
 			Types:      map[ast.Expr]types.TypeAndValue{},
+			Implicits:  map[ast.Node]types.Object{},
 		}
 		conf := types.Config{Importer: li}
 		pkg, err := conf.Check(modPath+"/"+name, fset, files, info)
@@ -252,7 +263,7 @@ func extractFacts(repo string) ([]*varRec, map[string]int, []string, error) {
 					Pos:     fmt.Sprintf("%s/%s:%d", name, filepath.Base(p.Filename), p.Line)}
 			}
 		}
-		cps = append(cps, checked{files, info, pkg})
+		cps = append(cps, checkedPkg{name, files, info, pkg})
 		return pkg, nil
 	}
 	for _, name := range libPkgs {
@@ -288,6 +299,7 @@ func extractFacts(repo string) ([]*varRec, map[string]int, []string, error) {
 			}
 		}
 	}
+	lastChecked, lastFset, lastVarRecs = cps, fset, all
 	var out []*varRec
 	for _, r := range all {
 		sort.Slice(r.Uses, func(i, j int) bool {
@@ -647,7 +659,20 @@ func renderCoq(vars []*varRec) []byte {
 }
 
 // cmdFacts: facts -repo DIR [-out file.v]; prints a TSV listing on stdout.
-func cmdFacts(repo, outPath string) int {
+func writeIfChanged(path string, data []byte) error {
+	old, _ := os.ReadFile(path)
+	if bytes.Equal(old, data) {
+		fmt.Printf("UNCHANGED\t%s\n", path)
+		return nil
+	}
+	if err := os.WriteFile(path, data, 0o644); err != nil {
+		return err
+	}
+	fmt.Printf("WROTE\t%s\n", path)
+	return nil
+}
+
+func cmdFacts(repo, outPath, reachPath, aliasPath string) int {
 	vars, stats, skipped, err := extractFacts(repo)
 	if err != nil {
 		fmt.Fprintln(os.Stderr, "facts:", err)
@@ -655,17 +680,21 @@ func cmdFacts(repo, outPath string) int {
 	}
 	coq := renderCoq(vars)
 	if outPath != "" {
-		old, _ := os.ReadFile(outPath)
-		if !bytes.Equal(old, coq) {
-			if err := os.WriteFile(outPath, coq, 0o644); err != nil {
-				fmt.Fprintln(os.Stderr, "facts:", err)
-				return 2
-			}
-			fmt.Printf("WROTE\t%s\n", outPath)
-		} else {
-			fmt.Printf("UNCHANGED\t%s\n", outPath)
+		if err := writeIfChanged(outPath, coq); err != nil {
+			fmt.Fprintln(os.Stderr, "facts:", err)
+			return 2
 		}
 	}
+	g := buildCallGraph()
+	rf := computeReach(g)
+	if reachPath != "" {
+		if err := writeIfChanged(reachPath, renderReachCoq(rf)); err != nil {
+			fmt.Fprintln(os.Stderr, "facts:", err)
+			return 2
+		}
+	}
+	defer printReachTSV(rf)
+	_ = aliasPath
 	fmt.Printf("STATS\tfiles=%d\tfuncs=%d\tvars=%d\n", stats["files"], stats["funcs"], len(vars))
 	for _, s := range skipped {
 		fmt.Printf("SKIPPED\t%s\n", s)
